@@ -272,14 +272,16 @@ PROPS['C17'] = dict(ROUTER_COMMON, **{
 })
 PROPS['C07'] = dict(ROUTER_COMMON, **{
     'modules': ['IpcModel.Props.C07'],
-    'theorems': ['C07.C07_dispatch_partial_msg', 'C07.C07_dispatch_partial_closed', 'C07.C07_keys', 'C07.C07_fresh', 'Router.step_fresh'],
+    'theorems': ['C07.C07_dispatch', 'C07.C07_dispatch_partial_msg', 'C07.C07_dispatch_partial_closed', 'C07.C07_keys', 'C07.C07_fresh', 'Router.step_fresh',
+                 'Router.dispatch_run', 'Router.run_gone'],
     'scenarios': router_scen(800, 8000, 160, 3000),
     'rule': PROPS['C17']['rule'],
     'explanation': ('one-step dispatch theorems (message -> exactly the registered handler, once; closure -> exactly that handler dropped; fresh ids) plus the freshness '
                     'invariant over all runs; per-route logs of the real router compared with the model; per-route order and single drop checked under concurrency'),
-    'level_text': ('Kernel-checked one-step dispatch theorems and the id-freshness invariant for every router state / event stream (the end-to-end induction over whole '
-                   'histories is not yet a single theorem: partial); real RouterProxy compared with the model on seeded scripts and checked for per-route order, '
-                   'exactly-once and single drop under concurrent registration and traffic'),
+    'level_text': ('Kernel-checked for every event stream that does not stop the router: the effects concerning a route are exactly one invocation per message reported for its '
+                   'id, in order, then one drop iff its closure was reported, and nothing else touches it (end-to-end theorem C07_dispatch, with one-step theorems and the '
+                   'id-freshness invariant); real RouterProxy compared with the model on seeded scripts and checked for per-route order, exactly-once and single drop under '
+                   'concurrent registration and traffic'),
     'level_note': 'Trusted: Lean kernel, harness; relies on C06 for the event stream; crossbeam-forwarding routes are a callback route whose handler forwards (same dispatch path)',
 })
 
